@@ -28,8 +28,83 @@ def _sim(mode, prog, regs, words, at=0, hazard=True):
 '''
 
 
+CACHE_HEAD = '''import fixedint
+from architecture_simulator.simulation.riscv_simulation import RiscvSimulation
+from architecture_simulator.uarch.memory.cache import CacheOptions
+
+TY = {1: fixedint.UInt8, 2: fixedint.UInt16, 4: fixedint.UInt32}
+
+
+def test_replay():
+    # %(prop)s: access history on a real data-cache memory system, checked against a flat byte dictionary
+    sim = RiscvSimulation(data_cache=CacheOptions(True, %(ib)d, %(bb)d, %(ways)d, %(kind)r, %(policy)r, %(penalty)d))
+    m = sim.state.memory
+    flat = {}
+    for a, v in %(preload)r:
+        m.write_byte(a, fixedint.UInt8(v), directly_write_to_lower_memory=True)
+        flat[a & 0xFFFFFFFF] = v
+    rd = {1: m.read_byte, 2: m.read_halfword, 4: m.read_word}
+    wr = {1: m.write_byte, 2: m.write_halfword, 4: m.write_word}
+    for kind, width, addr, value in %(ops)r:
+        if kind == "reset":
+            m.reset(); flat = {}; continue
+        crossing = (addr & 3) + width > 4
+        try:
+            if kind == "w":
+                wr[width](addr, TY[width](value))
+            else:
+                got = int(rd[width](addr, kind == "r"))
+        except Exception:
+            assert crossing, (kind, width, hex(addr), "accepted access raised")
+            continue
+        assert not crossing, (kind, width, hex(addr), "access crossing a word boundary was not rejected")
+        if kind == "w":
+            for i in range(width):
+                flat[(addr + i) & 0xFFFFFFFF] = (value >> (8 * i)) & 0xFF
+        else:
+            exp = sum(flat.get((addr + i) & 0xFFFFFFFF, 0) << (8 * i) for i in range(width))
+            assert got == exp, (kind, width, hex(addr), hex(got), hex(exp))
+    for a in sorted({x & ~3 for x in flat}):
+        exp = sum(flat.get(a + i, 0) << (8 * i) for i in range(4))
+        assert int(m.read_word(a, False)) == exp, ("stored value", hex(a))
+    print(m.get_cache_stats(), sim.state.performance_metrics.cycles)  # accounting oracles: compare with the replay file's message
+'''
+
+
+def _cache_history(prop, case):
+    from vf.checks.cachebfs import Cfg, WVALS, preload_byte
+
+    cfg = Cfg(*case["cfg"])
+    ops = []
+    flat = {}
+    pre = [(cfg.spell(a), preload_byte(a)) for a in cfg.bytes] if cfg.pre else []
+    for a, v in pre:
+        flat[a & 0xFFFFFFFF] = v
+    for i in case["hist"]:
+        op = cfg.ops[i]
+        kind, width, a, vi = op[:4]
+        alias = op[4] if len(op) > 4 else 0
+        if kind == "reset":
+            ops.append(("reset", 0, 0, 0))
+            flat = {}
+            continue
+        val = 0
+        if kind == "w":
+            if cfg.const:
+                val = sum(flat.get((a + k) & 0xFFFFFFFF, 0) << (8 * k) for k in range(width))
+            else:
+                val = WVALS[width][vi]
+            if (a & 3) + width <= 4:
+                for k in range(width):
+                    flat[(a + k) & 0xFFFFFFFF] = (val >> (8 * k)) & 0xFF
+        ops.append((kind, width, cfg.spell(a, alias), val))
+    return CACHE_HEAD % dict(prop=prop, ib=cfg.ib, bb=cfg.bb, ways=cfg.ways, kind=cfg.kind, policy=cfg.policy, penalty=cfg.penalty, preload=pre, ops=ops)
+
+
 def generate(prop, case):
     kind = case.get("kind")
+    if kind == "cache-history":
+        return _cache_history(prop, case)
     if kind == "insn":
         return HEAD + f'''
 
